@@ -198,6 +198,9 @@ def run(ctx):
         "and a decomposition that needs it is not judged",
         "Menger is exempt from strict interiority, as the property says"]
     ctx.mc("MultiKnee", "MC_MultiKnee", need_actions=("PopSmall", "PopStraight", "PopDetect", "Finish"))
+    if not ctx.quick:
+        ctx.mc("MultiKnee", "MC_MultiKnee_12", timeout=3000)
+        ctx.mc("Rdp", "MC_Rdp_11", timeout=3000)
     ctx.mc("MultiKnee", "MC_MultiKnee_last", expect="PopBound")
     beh = ctx.gen("MultiKnee", "Gen_MultiKnee_quick" if ctx.quick else "Gen_MultiKnee_thorough")
     ctx.exhaustive = True
